@@ -31,7 +31,8 @@ RULE = ("operation words over a pool of 4 containers and 6 held types (int, doub
         "non-trivial = the word allocates and then copies/moves/assigns/swaps/resets/writes; distinct by the word itself")
 TRUSTED_BASE = ["Coq 8.16.1 kernel (coqc); no axioms (Print Assumptions: closed under the global context)",
                 "extraction (ExtrOcamlBasic only) and ocaml/drv_C20.ml, ocaml/caseio.ml, ocaml/float_ops.ml (conversions only)",
-                "cpp/h_C20.cpp harness: the mapping of operation tokens to C++ expressions, the value codecs and the probe types",
+                "cpp/h_C20.cpp harness: the mapping of operation tokens to C++ expressions, the value codecs, the probe types, and its process handling "
+                "(words run in forked children, a failing batch is re-run word by word, a dying child's record is closed by the parent with `crashed`/`sanitizer`)",
                 "the abstraction itself: held values are integer codes, `new`/`delete` never fail, exceptions thrown by a held type's copy constructor are not modelled",
                 "correspondence is sampled: agreement of model and code is established on the generated words only",
                 "AddressSanitizer/LeakSanitizer (thorough tier) for the memory errors the probes cannot see"]
@@ -265,6 +266,11 @@ def oracle(c, impl, model):
                 model.get("heap_after_destroy_all"), model.get("destroyed_eq_allocated"), model.get("faults"), model.get("views_agree"))))
     for k, tok in enumerate(w):
         line = impl.get("r%d" % k)
+        if line is None and impl.get("crashed") is not None:
+            san = (impl.get("sanitizer") or ["none"])[0]
+            v.append(("C20:crash:%s:%s" % (san if san != "none" else "status-%s" % impl.get("crashed"), kind(tok)),
+                      "the process died in step %d (%s) of %s (status %s, %s)" % (k, tok, " ".join(w[:k + 1][-8:]), impl.get("crashed"), san)))
+            break
         if line is None or len(line) != n + 2:
             v.append(("C20:no-observation:%s" % kind(tok), "step %d (%s): no observation line" % (k, tok)))
             break
@@ -318,6 +324,12 @@ def oracle(c, impl, model):
             sig, d = found[0]
             v.append(("C20:%s:%s" % (sig, kind(tok)), "step %d (%s): %s" % (k, tok, d)))
             break
+    if impl.get("crashed") is not None and impl.get("r%d" % (len(w) - 1)) is not None:
+        san = (impl.get("sanitizer") or ["none"])[0]
+        v.append(("C20:crash:%s:end-of-scope" % (san if san != "none" else "status-%s" % impl.get("crashed")),
+                  "the process died while the containers were destroyed after %s (status %s)" % (" ".join(w[-8:]), impl.get("crashed"))))
+    if impl.get("leaked"):
+        v.append(("C20:leak-at-end:lsan", "LeakSanitizer: memory allocated by the word %s is unreachable after every container was destroyed" % " ".join(w[:12])))
     # (d) end of scope: everything destroyed exactly once
     for t, name in ((4, "probe"), (5, "mprobe")):
         e = impl.get(name + "_live_end")
